@@ -32,7 +32,7 @@ def step (cfg : Cfg) (m : A) (e : Ev) : Except String A :=
     if m.closed then .error "C08 TLS handshake after close"
     else if m.tls then .error "C10 STARTTLS accepted although TLS is already active"
     else if !cfg.tlsAvail then .error "C10 STARTTLS accepted although TLS is not configured"
-    else .ok (if ok then { m with tls := true, upgrading := true } else m)
+    else .ok (if ok then { m with tls := true, upgrading := m.live.isSome } else m)      -- (only a live session has to be logged out)
   | .close =>
     if m.closed then .error "C08 closed twice"
     else if m.live.isSome then .error "C08 connection closed while a session is still logged in"
